@@ -1,5 +1,8 @@
 import Marwood.Lemmas.Store
 import Marwood.Lemmas.StoreList
+import Marwood.Lemmas.PreludeAgree
+import Marwood.Lemmas.PreludeInterpAss
+import Marwood.Lemmas.PreludeInterpMap
 /-!
 # C14 — list and vector procedures match their specification and preserve identity
 
@@ -816,5 +819,145 @@ example := mem_spec (test := eqTest) (obj := .num 2) (p := fun a => decide (a = 
 example := ass_spec (s := exStore) (test := eqTest) (obj := .num 1) (p := fun _ => true)
   (v := .ptr 9) (as := [8]) (c := .nil) (.cons rfl (.done rfl rfl))
   (by intro a ha; simp at ha; subst ha; exact ⟨.pair 0 1, rfl, rfl⟩) 3 (by decide)
+
+/-! ## the Scheme-defined procedures are the regenerated ones
+
+`Gen.PreludeProcs.procs` is regenerated from `marwood/prelude.scm` on every run
+(`translate/prelude_procs.py`); `Store.Prelude.sourceOf` records, as data, the top-level form each
+model of `Store/Prelude.lean` (`length`, `mem`, `ass`, `anyNull`, `map1`, `mapAll`, `forEachAll`;
+`ListOps.list`) was transcribed from. The theorems below are closed (kernel evaluation of two small
+terms): when a library procedure of the prelude changes, the one for that procedure no longer holds
+and this module stops building; the operation-sequence correspondence then exhibits the behavioural
+difference. The section after this one proves more: each model is the image of the regenerated form
+under the interpretation function of `Store/PreludeInterp.lean`. -/
+
+theorem prelude_source_caar : Gen.PreludeProcs.procs.lookup "caar" = some Store.Prelude.caarSrc :=
+  Store.Prelude.agree_caar
+theorem prelude_source_list : Gen.PreludeProcs.procs.lookup "list" = some Store.Prelude.listSrc :=
+  Store.Prelude.agree_list
+theorem prelude_source_length : Gen.PreludeProcs.procs.lookup "length" = some Store.Prelude.lengthSrc :=
+  Store.Prelude.agree_length
+theorem prelude_source_memq : Gen.PreludeProcs.procs.lookup "memq" = some Store.Prelude.memqSrc :=
+  Store.Prelude.agree_memq
+theorem prelude_source_memv : Gen.PreludeProcs.procs.lookup "memv" = some Store.Prelude.memvSrc :=
+  Store.Prelude.agree_memv
+theorem prelude_source_member : Gen.PreludeProcs.procs.lookup "member" = some Store.Prelude.memberSrc :=
+  Store.Prelude.agree_member
+theorem prelude_source_assq : Gen.PreludeProcs.procs.lookup "assq" = some Store.Prelude.assqSrc :=
+  Store.Prelude.agree_assq
+theorem prelude_source_assv : Gen.PreludeProcs.procs.lookup "assv" = some Store.Prelude.assvSrc :=
+  Store.Prelude.agree_assv
+theorem prelude_source_assoc : Gen.PreludeProcs.procs.lookup "assoc" = some Store.Prelude.assocSrc :=
+  Store.Prelude.agree_assoc
+theorem prelude_source_anyP : Gen.PreludeProcs.procs.lookup "any?" = some Store.Prelude.anyPSrc :=
+  Store.Prelude.agree_anyP
+theorem prelude_source_map1 : Gen.PreludeProcs.procs.lookup "map1" = some Store.Prelude.map1Src :=
+  Store.Prelude.agree_map1
+theorem prelude_source_map : Gen.PreludeProcs.procs.lookup "map" = some Store.Prelude.mapSrc :=
+  Store.Prelude.agree_map
+theorem prelude_source_forEach : Gen.PreludeProcs.procs.lookup "for-each" = some Store.Prelude.forEachSrc :=
+  Store.Prelude.agree_forEach
+
+/-- every regenerated procedure that has a model is the form the model was transcribed from -/
+theorem prelude_sources_agree :
+    ∀ p ∈ Gen.PreludeProcs.procs, Store.Prelude.modelled p.1 = true → Store.Prelude.sourceOf p.1 = some p.2 :=
+  Store.Prelude.agree_all
+
+/-- every modelled procedure is still defined by the prelude, by the recorded form -/
+theorem prelude_modelled_defined : ∀ n ∈ Store.Prelude.modelledNames,
+    Gen.PreludeProcs.procs.lookup n = Store.Prelude.sourceOf n ∧ (Store.Prelude.sourceOf n).isSome = true :=
+  Store.Prelude.modelled_all_defined
+
+/-- the three `mem…` procedures differ in the equivalence only, and so do the three `ass…` ones: the
+    models `mem test` / `ass test` are one transcription instantiated three times -/
+theorem prelude_mem_family :
+    Store.Prelude.memvSrc = Store.Prelude.renameSyms [("memq", "memv"), ("eq?", "eqv?")] Store.Prelude.memqSrc ∧
+    Store.Prelude.memberSrc = Store.Prelude.renameSyms [("memq", "member"), ("eq?", "equal?")] Store.Prelude.memqSrc ∧
+    Store.Prelude.assvSrc = Store.Prelude.renameSyms [("assq", "assv"), ("eq?", "eqv?")] Store.Prelude.assqSrc ∧
+    Store.Prelude.assocSrc = Store.Prelude.renameSyms [("assq", "assoc"), ("eq?", "equal?")] Store.Prelude.assqSrc :=
+  Store.Prelude.mem_ass_family
+
+/-! ## the hand transcriptions are the images of the regenerated definitions
+
+`Store.Prelude.defs` is `Gen.PreludeProcs.procs` (regenerated) read by `Store.Prelude.parseDef`;
+`Store.Prelude.interp P defs fuel name` is the meaning the explicitly defined interpretation function of
+`Store/PreludeInterp.lean` gives to the global `name` (operands left to right, a test is true unless
+`#f`, lexical resolution of the operator, one unit of fuel per call of a Scheme-defined procedure).
+For every fuel, store and argument the hand-written model IS that image — the transcription is no
+longer trusted; what is trusted instead is the 150-line interpretation function (its reading of
+`if`, `cond`, `and`, `or`, `begin`, `letrec`, `apply`) and the builtin table `prims`. -/
+
+section PreludeImages
+open Marwood.Store.Prelude
+variable {efuel : Nat} {user : String → Option Callee}
+
+theorem prelude_image_length (fuel : Nat) (s : Store) (l : VCell) :
+    interp (prims efuel user) defs fuel "length" s [l] = liftV s (Store.length fuel s l) :=
+  interp_length fuel s l
+
+theorem prelude_image_memq (fuel : Nat) (s : Store) (obj l : VCell) :
+    interp (prims efuel user) defs fuel "memq" s [obj, l] = liftV s (memq fuel s obj l) :=
+  interp_memq fuel s obj l
+
+theorem prelude_image_memv (fuel : Nat) (s : Store) (obj l : VCell) :
+    interp (prims efuel user) defs fuel "memv" s [obj, l] = liftV s (memv fuel s obj l) :=
+  interp_memv fuel s obj l
+
+/-- `member`'s test is the builtin `equal?` run with the same fuel -/
+theorem prelude_image_member (fuel : Nat) (s : Store) (obj l : VCell) :
+    interp (prims fuel user) defs fuel "member" s [obj, l] = liftV s (member fuel s obj l) :=
+  interp_member fuel s obj l
+
+theorem prelude_image_assq (fuel : Nat) (s : Store) (obj l : VCell) :
+    interp (prims efuel user) defs fuel "assq" s [obj, l] = liftV s (assq fuel s obj l) :=
+  interp_assq fuel s obj l
+
+theorem prelude_image_assv (fuel : Nat) (s : Store) (obj l : VCell) :
+    interp (prims efuel user) defs fuel "assv" s [obj, l] = liftV s (assv fuel s obj l) :=
+  interp_assv fuel s obj l
+
+theorem prelude_image_assoc (fuel : Nat) (s : Store) (obj l : VCell) :
+    interp (prims fuel user) defs fuel "assoc" s [obj, l] = liftV s (assoc fuel s obj l) :=
+  interp_assoc fuel s obj l
+
+/-- `(any? null? l)` -/
+theorem prelude_image_anyNull (fuel : Nat) (s : Store) (l : VCell) :
+    interp (prims efuel user) defs fuel "any?" s [.builtin "null?", l] =
+      (do let b ← anyNull fuel s l; .ok (s, .bool b)) :=
+  interp_anyNull fuel s l
+
+/-- `map1` applied to a procedure value `gname` that the table resolves to the callee `g` -/
+theorem prelude_image_map1 {gname : String} {g : Callee} (hP : prims efuel user gname = some g)
+    (fuel : Nat) (s : Store) (xs : VCell) :
+    interp (prims efuel user) defs fuel "map1" s [.builtin gname, xs] = map1 g fuel s xs :=
+  interp_map1 hP fuel s xs
+
+/-- `map` (one more unit of fuel than the model: the model starts at `map-all`) -/
+theorem prelude_image_map {gname : String} {g : Callee} (hP : prims efuel user gname = some g)
+    (fuel : Nat) (s : Store) (lists : List VCell) :
+    interp (prims efuel user) defs (fuel+1) "map" s (.builtin gname :: lists) = map g fuel s lists :=
+  interp_map hP fuel s lists
+
+theorem prelude_image_forEach {gname : String} {g : Callee} (hP : prims efuel user gname = some g)
+    (fuel : Nat) (s : Store) (lists : List VCell) :
+    interp (prims efuel user) defs (fuel+1) "for-each" s (.builtin gname :: lists) = forEach g fuel s lists :=
+  interp_forEach hP fuel s lists
+
+/-- the prelude's `caar` is `car ∘ car`, which is how `(caar alist)` is read inside `assq` … `assoc` -/
+theorem prelude_image_caar (fuel : Nat) (s : Store) (x : VCell) :
+    interp (prims efuel user) defs (fuel+1) "caar" s [x] = (do let (s, v) ← car s [x]; car s [v]) :=
+  interp_caar fuel s x
+
+/-- `(define (list . l) l)` is the `VARARG` list builder -/
+theorem prelude_image_list (fuel : Nat) (s : Store) (args : List VCell) :
+    interp (prims efuel user) defs (fuel+1) "list" s args = list s args :=
+  interp_list fuel s args
+
+/-- the hypothesis `hP` is satisfiable: a user-bound callee name, and the builtins themselves -/
+example : prims 0 (fun n => if n == "g" then some cons else none) "g" = some cons := by simp [prims]
+example : interp (prims 0 (fun _ => none)) defs 6 "map" Store.empty [.builtin "car"] =
+    map car 5 Store.empty [] := prelude_image_map (by simp [prims]) 5 _ _
+
+end PreludeImages
 
 end Marwood.Proofs.C14
